@@ -121,7 +121,13 @@ def total_on_dumps(R, rnd):
     specs = [["partial", "np.add", [["int", 1]], []], ["dict", [[["str", "key_types"], ["int", 1]]]],
              # D32 (repaired): keys of an untrusted type used to make visualize raise "invalid 'key_types' node"
              ["dict", [[["none"], ["int", 1]]]], ["dict", [[["mystr", "a"], ["int", 1]]]], ["dict", [[["myint", 3], ["list", [["int", 1]]]]]],
-             ["list", [["dict", [[["str", "a"], ["int", 1]], [["none"], ["list", [["int", 2]]]]]]]]]
+             ["list", [["dict", [[["str", "a"], ["int", 1]], [["none"], ["list", [["int", 2]]]]]]]],
+             # the witnesses of coq/props/C13.v: C13_total_on_dumps_trusted_refuted ([partial(np.add, 1)], D24) and
+             # C13_total_nonvacuous (a list shared three times, a dict with a slice, a partial: completes in every mode)
+             ["list", [["partial", "np.add", [["int", 1]], []]]],
+             ["tuple", [["list", [["int", 1], ["str", "x"]]],
+                        ["dict", [[["str", "a"], ["ref", 0]], [["int", 3], ["slice", ["int", 1], ["none"], ["int", 2]]]]],
+                        ["partial", "np.add", [["int", 1]], []], ["ref", 0]]]]
     specs += [GV.gen_value(rnd, supported=(i % 2 == 0)) for i in range(n)]
     shards = 8
     from concurrent.futures import ThreadPoolExecutor
